@@ -80,6 +80,7 @@ UNDECIDED = {
 
 def run(ctx):
     F = ctx.facts
+    r13_5(ctx)
     ctx.rule('R13.1', 'no throw expression / std::sto* call propagates uncaught to main() (call graph + handler types at every call site)')
     ctx.rule('R13.2', 'CppCheck::checkInternal catches InternalError, TerminateException, std::runtime_error, std::bad_alloc around the analysis')
     ctx.rule('R13.3', 'explicit throws in lib/ use the closed exception vocabulary')
@@ -234,3 +235,144 @@ def run(ctx):
                        ('%s thrown in %s never leaves a dedicated handler' % (ty, f['name'])) if not esc else
                        ('%s thrown in %s is outside the vocabulary that CppCheck::checkInternal turns into findings' % (ty, f['name'])),
                        '%s:%s' % (f['file'], t['l']))
+
+
+# signed division / modulo sites that are not reachable with an overflowing operand pair, with the reason
+DIV_LATENT = {
+    ('MathLib::value::calc', '%='): 'operator% of MathLib::value is not used outside TEST_MATHLIB_VALUE builds (the template simplifier uses only shifts and bit operators of it)',
+    ('ValueFlow::solveExprValue', '/='): 'divides the known result by a known factor of a multiplication; the divisor is tested for zero and a product equal to LLONG_MIN with factor -1 cannot be a known int value',
+}
+
+
+def r13_5(ctx):
+    """R13.5  hardware traps: a signed 64-bit `/` or `%` (MathLib::bigint, long long) with a non-literal divisor raises SIGFPE for a zero divisor and for
+    LLONG_MIN / -1.  Every such site in lib/ is dominated by a zero test of the divisor and by a guard for the overflowing pair (a test against
+    numeric_limits<...>::min(), or a rejection of negative divisors).  Sibling agreement: MathLib::divide has both guards, so must MathLib::mod."""
+    from .common import paths as _p
+    from .common.facts import walk, strip, call_args
+    F = ctx.facts
+    ctx.rule('R13.5', 'signed 64-bit division and modulo are guarded against zero and LLONG_MIN / -1')
+    n = 0
+    for f in F.all_fns():
+        if not f['file'].startswith('lib/'):
+            continue
+        b = F.body(f)
+        if b is None:
+            continue
+        sites = []
+        for x in walk(b['body']):
+            if x.get('k') in ('BinaryOperator', 'CompoundAssignOperator') and x.get('op') in ('/', '%', '/=', '%=') and (x.get('t') or '') in ('MathLib::bigint', 'long long', 'long', 'int64_t', 'std::int64_t'):
+                d = x['c'][1]
+                while d is not None and d.get('k') in ('ImplicitCastExpr', 'ParenExpr') and d.get('c'):
+                    d = d['c'][0]
+                if d is not None and d.get('k') == 'IntegerLiteral':
+                    continue
+                sites.append((x, d))
+        if not sites:
+            continue
+
+        def sig(e):
+            e = strip(e)
+            while e is not None and e.get('k') in ('ImplicitCastExpr', 'ParenExpr', 'CXXFunctionalCastExpr', 'CXXStaticCastExpr') and e.get('c'):
+                e = strip(e['c'][0])
+            if e is None:
+                return None
+            return e.get('di') or e.get('n') or e.get('fn')
+
+        from .common.facts import walk_parents
+        chains = {}
+        for y, parents in walk_parents(b['body']):
+            for x, d in sites:
+                if y is x:
+                    chains[id(x)] = list(parents) + [y]
+
+        def terminates(st):
+            if st is None:
+                return False
+            if st.get('k') == 'CompoundStmt':
+                return bool(st.get('c')) and terminates(st['c'][-1])
+            return st.get('k') in ('ReturnStmt', 'BreakStmt', 'ContinueStmt') or any(y.get('k') == 'CXXThrowExpr' for y in walk(st))
+
+        def mentions_zero_test(c, ds):
+            for y in walk(c):
+                if y.get('k') == 'BinaryOperator' and y.get('op') == '==':
+                    r = strip(y['c'][1])
+                    while r is not None and r.get('k') == 'ImplicitCastExpr' and r.get('c'):
+                        r = r['c'][0]
+                    if r is not None and r.get('k') == 'IntegerLiteral' and r.get('v') == '0' and sig(y['c'][0]) == ds:
+                        return True
+                if y.get('k') == 'CallExpr' and y.get('fn') == 'isZero' and any(sig(a) == ds or any(sig(z) == ds for z in walk(a)) for a in call_args(y)):
+                    return True
+            return False
+
+        def mentions_overflow_guard(c, ds):
+            txt = ' '.join(str(y.get('n') or y.get('fn') or '') for y in walk(c))
+            if 'numeric_limits' in txt and '::min' in txt:
+                return True
+            for y in walk(c):
+                if y.get('k') == 'BinaryOperator' and y.get('op') == '<':
+                    r = strip(y['c'][1])
+                    while r is not None and r.get('k') == 'ImplicitCastExpr' and r.get('c'):
+                        r = r['c'][0]
+                    if r is not None and r.get('k') == 'IntegerLiteral' and r.get('v') == '0' and (sig(y['c'][0]) == ds or any(sig(z) == ds for z in walk(y['c'][0]))):
+                        return True
+            return False
+
+        def preceded_by(x, pred):
+            """an earlier statement of an enclosing block is `if (pred) <leaves>`, or x lies in the else / fall-through of such a test"""
+            chain = chains.get(id(x), [])
+            for i, anc in enumerate(chain):
+                if anc.get('k') in ('CompoundStmt', 'CaseStmt', 'DefaultStmt', 'SwitchStmt'):
+                    kids = anc.get('c', []) if anc.get('k') == 'CompoundStmt' else []
+                    if any(k_.get('k') in ('CaseStmt', 'DefaultStmt') for k_ in kids):
+                        continue      # a switch body: only the statements of the same case group count (handled below)
+                    nxt = chain[i + 1] if i + 1 < len(chain) else None
+                    for k_ in kids:
+                        if k_ is nxt:
+                            break
+                        if k_.get('k') == 'IfStmt' and k_.get('cond') is not None and pred(k_['cond']) and terminates(k_.get('then')):
+                            return True
+                if anc.get('k') == 'CaseStmt':
+                    # statements of a case label are siblings inside the switch body: look at the statements between the label and x
+                    pass
+            # flat switch bodies: statements after `case` up to x
+            for anc in chain:
+                if anc.get('k') == 'CompoundStmt':
+                    kids = anc.get('c', [])
+                    idx = next((i for i, k_ in enumerate(kids) if any(z is x for z in walk(k_))), None)
+                    if idx is None:
+                        continue
+                    for k_ in reversed(kids[:idx + 1]):
+                        cands = [k_]
+                        if k_.get('k') in ('CaseStmt', 'DefaultStmt'):
+                            cands = [z for z in walk(k_) if z.get('k') == 'IfStmt']
+                        for c_ in cands:
+                            if c_.get('k') == 'IfStmt' and c_.get('cond') is not None and pred(c_['cond']) and terminates(c_.get('then')) and not any(z is x for z in walk(c_)):
+                                return True
+                        if k_.get('k') in ('CaseStmt', 'DefaultStmt') and not any(z is x for z in walk(k_)):
+                            break
+            return False
+
+        def sig(e):
+            e = strip(e)
+            while e is not None and e.get('k') in ('ImplicitCastExpr', 'ParenExpr', 'CXXFunctionalCastExpr', 'CXXStaticCastExpr', 'CXXUnresolvedConstructExpr') and e.get('c'):
+                e = strip(e['c'][-1])
+            if e is None:
+                return None
+            return e.get('di') or e.get('n') or e.get('fn')
+        for x, d in sites:
+            n += 1
+            ds = sig(d)
+            zero_ok = preceded_by(x, lambda c: mentions_zero_test(c, ds))
+            ovf_ok = preceded_by(x, lambda c: mentions_overflow_guard(c, ds))
+            key = 'div:%s:%s' % (f['name'], x['op'])
+            where = '%s:%s' % (f['file'], x['l'])
+            if (f['name'], x['op']) in DIV_LATENT and not (zero_ok and ovf_ok):
+                ctx.note('R13.5 not armed: %s %s at %s - %s' % (f['name'], x['op'], where, DIV_LATENT[(f['name'], x['op'])]))
+                continue
+            ok = zero_ok and ovf_ok
+            ctx.ob('R13.5', key, ok, ('%s: `%s` is guarded against a zero divisor and the LLONG_MIN / -1 pair' % (f['name'], x['op'])) if ok else
+                   ('%s computes a signed 64-bit `%s` at line %s %s: the operands come from the analysed source (constant folding), and the hardware raises SIGFPE' %
+                    (f['name'], x['op'], x['l'], 'without a zero test of the divisor' if not zero_ok else 'without a guard for LLONG_MIN and a divisor of -1 (the sibling MathLib::divide has one)')),
+                   where)
+    ctx.floor('R13.5 signed 64-bit division / modulo sites', n, 5)
